@@ -7,6 +7,10 @@
 #              fires; forced down; late restart-timer handler; late LLGR-timer handler v4 / v6} after a prelude (session up, 4 routes incl. NO_LLGR and LLGR_STALE
 #              ones, EOR), for 6 GR/LLGR configurations; letters that do not apply in the current
 #              state prune the branch; shard i of `nshards` takes the (config, 1st, 2nd letter) items = i mod nshards
+#   part=l1c  L1, directed exhaustive: the first helper cycle is fixed (7 ways it can end: all timers run out, one LLGR
+#             timer runs out then reconnect, End-of-RIB after a reconnect in the restart period, reconnect after the
+#             restart timer ran out (LLGR period / purge), the same without End-of-RIB, non-GR drop of the re-established
+#             session, forced down), the peer is back with routes, then every sequence of `depth` letters (2nd cycle)
 #   part=l1r  L1, random histories (up to 24 ops, all drop reasons incl. hold-timer expiry) + directed
 #             GR->LLGR->reconnect->EOR cycles
 #             and "late handler" cycles (the expiry handler of a cancelled restart / LLGR timer runs at a later point:
@@ -63,12 +67,26 @@ CFG = dict(
                          "late:restart:in-reconnected": 700, "late:restart:in-idle": 800, "late:restart:in-restarting": 80,
                          "late:restart:in-llgr-staling": 5, "late:restart:with-stale-routes": 800,
                          "late:llgr:in-reconnected": 150, "late:llgr:in-idle": 280, "late:llgr:in-llgr-staling": 5,
-                         "l2:profile:late-cycle": 200}),
+                         "l2:profile:late-cycle": 200,
+                         # second helper cycle of the same peer (state that outlives a cycle); timers that elapse by themselves
+                         "l1c:complete-shards": 4, "op:restart-timer-natural": 4000, "op:llgr-timer-natural": 2000,
+                         "cycle1-end:llgr-expiry": 800, "cycle1-end:eor": 7000, "cycle1-end:reconnect-during-llgr": 4500,
+                         "cycle1-end:restart-expiry-without-llgr": 1500, "cycle1-end:forced-down": 1000,
+                         "cycle2:entered": 3500, "cycle2:restart-expiry": 1100, "cycle2:llgr-period-entered": 1000,
+                         "cycle2:llgr-expiry-purged": 500, "cycle2:eor-purged": 90,
+                         "cycle2:llgr-period-entered-after:llgr-expiry": 260, "cycle2:llgr-period-entered-after:eor": 180,
+                         "cycle2:llgr-period-entered-after:reconnect-during-llgr": 480,
+                         "cycle2:llgr-period-entered-after:restart-expiry-without-llgr": 30,
+                         "cycle2:llgr-period-entered-after:forced-down": 50,
+                         "cycle2:entered-after:llgr-expiry": 330, "cycle2:entered-after:restart-expiry-without-llgr": 400,
+                         "cycle3+:entered": 300}),
     # l2 first: the driver keeps the first witness per signature, and an end-to-end witness is the most convincing one
     quick=[e2("l2", _T, 4, 240, part="l2", count=1500),
            e2("l1x", _T, 12, 400, part="l1x", depth=5, nshards=12),
+           e2("l1c", _T, 4, 400, part="l1c", depth=3, nshards=4),
            e2("l1r", _T, 2, 240, part="l1r", count=8000)],
     thorough=[e2("l2", _T, 16, 300, part="l2", count=5000),
               e2("l1x", _T, 16, 900, part="l1x", depth=6, nshards=16),
+              e2("l1c", _T, 8, 900, part="l1c", depth=4, nshards=8),
               e2("l1r", _T, 8, 300, part="l1r", count=100000)],
 )
